@@ -130,7 +130,10 @@ func (b c17SubBlocks) GetBlock(substrateTypes.Hash) (*substrateTypes.SignedBlock
 }
 
 // RetryV1: event listener returning one retry event whose transaction holds the scripted deposits
-type c17Listener struct{ deps []c17Dep }
+type c17Listener struct {
+	deps []c17Dep
+	v2   []events.RetryV2Event
+}
 
 func (l *c17Listener) FetchKeygenEvents(ctx context.Context, a common.Address, s, e *big.Int) ([]ethTypes.Log, error) {
 	return nil, nil
@@ -148,7 +151,7 @@ func (l *c17Listener) FetchRetryV1Events(ctx context.Context, a common.Address, 
 	return []events.RetryV1Event{{TxHash: "0x01"}}, nil
 }
 func (l *c17Listener) FetchRetryV2Events(ctx context.Context, a common.Address, s, e *big.Int) ([]events.RetryV2Event, error) {
-	return nil, nil
+	return l.v2, nil
 }
 func (l *c17Listener) FetchRetryDepositEvents(ev events.RetryV1Event, a common.Address, conf *big.Int) ([]events.Deposit, error) {
 	out := []events.Deposit{}
@@ -206,7 +209,7 @@ func init() {
 		ds := c17Deps(a[0])
 		db, ps := c17Store(ds, c3Script(a[1]), a[2])
 		ch := make(chan []*message.Message, 64)
-		h := eventHandlers.NewRetryV1EventHandler(zerolog.Nop().With(), &c17Listener{ds}, c17DepositHandler{}, ps,
+		h := eventHandlers.NewRetryV1EventHandler(zerolog.Nop().With(), &c17Listener{deps: ds}, c17DepositHandler{}, ps,
 			common.Address{}, c3Src, big.NewInt(1), ch)
 		if err := h.HandleEvents(big.NewInt(10), big.NewInt(15)); err != nil {
 			return "err"
@@ -254,6 +257,32 @@ func init() {
 			return "many"
 		}
 		return c3Ret(err) + "|" + em + "|" + c17Final(db, ds)
+	}
+	// retryv2 <listening domain> <source> <destination> <height> <resource>
+	//   the request a RetryV2 event is turned into  =>  <msg.Source>,<msg.Destination>,<type>|<src>,<dst>,<height>,<res>
+	ops["C17.retryv2"] = func(a []string) string {
+		ch := make(chan []*message.Message, 4)
+		ev := events.RetryV2Event{SourceDomainID: uint8(u64(a[1])), DestinationDomainID: uint8(u64(a[2])),
+			BlockHeight: new(big.Int).SetUint64(u64(a[3])), ResourceID: c3Resource(byte(u64(a[4])))}
+		h := eventHandlers.NewRetryV2EventHandler(zerolog.Nop().With(), &c17Listener{v2: []events.RetryV2Event{ev}},
+			common.Address{}, uint8(u64(a[0])), ch)
+		if err := h.HandleEvents(big.NewInt(1), big.NewInt(2)); err != nil {
+			return "err"
+		}
+		select {
+		case ms := <-ch:
+			if len(ms) != 1 {
+				return "count:" + itoa(len(ms))
+			}
+			d, ok := ms[0].Data.(retry.RetryMessageData)
+			if !ok {
+				return "baddata"
+			}
+			return itoa(int(ms[0].Source)) + "," + itoa(int(ms[0].Destination)) + "," + string(ms[0].Type) + "|" +
+				itoa(int(d.SourceDomainID)) + "," + itoa(int(d.DestinationDomainID)) + "," + d.BlockHeight.String() + "," + itoa(int(d.ResourceID[31]))
+		case <-time.After(10 * time.Second):
+			return "nothing"
+		}
 	}
 	// hist <n> <ops>   '/'-separated:
 	//   D<nonces>[@f]  proposalsForExecution          -> s:<nonces> | e
@@ -424,6 +453,10 @@ func genC17(g *G) {
 			fl = c17Faults(g, 2*n, 3+g.Intn(8))
 		}
 		g.Emit("retryv1", deps, st, fl)
+	}
+	// ---- RetryV2: the request carried by the retry message
+	for i := 0; i < g.Count(150, 3000); i++ {
+		g.Emit("retryv2", itoa(g.Intn(4)), itoa(g.Intn(5)), itoa(g.Intn(5)), utoa([]uint64{0, 1, 77, 1 << 40}[g.Intn(4)]), itoa(1+g.Intn(3)))
 	}
 	// ---- the three RetryMessageHandlers
 	for i := 0; i < g.Count(900, 30000); i++ {
